@@ -148,7 +148,7 @@ func runC17Tamper(x *mc.X) {
 				bytevals = append(bytevals, b)
 			}
 		}
-		for off := ci * chunk; off < min(len(orig), (ci+1)*chunk); off++ {
+		for off := ci * len(orig) / slices; off < (ci+1)*len(orig)/slices; off++ {
 			if bytevals != nil {
 				for _, b := range bytevals {
 					if byte(b) == orig[off] {
@@ -407,8 +407,9 @@ func runC17Transport(x *mc.X) {
 		}
 	}
 	orig := files[target]
-	chunk := 32
-	ci := x.Choose("offset-chunk", (len(orig)+chunk-1)/chunk+1)
+	// a fixed number of slices of the file (its length varies by a few bytes with the wall-clock timestamps in it)
+	const slices = 12
+	ci := x.Choose("offset-slice", slices+1)
 	restore := func() {
 		for p, b := range files {
 			_ = os.WriteFile(p, b, 0o644)
@@ -431,7 +432,7 @@ func runC17Transport(x *mc.X) {
 		}
 		return true
 	}
-	if ci == (len(orig)+chunk-1)/chunk {
+	if ci == slices {
 		// truncations and extensions
 		for k := 0; k < len(orig); k += max(1, len(orig)/64) {
 			if !probe(fmt.Sprintf("truncated to %d", k), orig[:k]) {
@@ -444,7 +445,7 @@ func runC17Transport(x *mc.X) {
 			}
 		}
 	} else {
-		for off := ci * chunk; off < min(len(orig), (ci+1)*chunk); off++ {
+		for off := ci * len(orig) / slices; off < (ci+1)*len(orig)/slices; off++ {
 			for _, b := range []byte{orig[off] ^ 0x01, orig[off] ^ 0x80} {
 				m := append([]byte(nil), orig...)
 				m[off] = b
